@@ -4,6 +4,11 @@ package cors
 func zzH_C06_api() {
 	s := zzDrawScenario(zzAllFocus)
 	m1 := s.m
+	if !s.c.allowAll {
+		// the constructors read the caller's Config; they must not rewrite it
+		// (the same value is handed to Reconfigure below, slices shared)
+		zzAssert(zzEqStrs(s.c.cfg.Origins, zzRaws(s.c.pats)), "building a middleware changed the Origins slice of the caller's Config")
+	}
 	c1 := m1.Config()
 	zzAssert(c1 != nil, "configured middleware returned a nil Config")
 	if c1 == nil {
